@@ -15,6 +15,9 @@ import (
 
 func c07Features(cs *cvxCase, clause string) map[string]any {
 	f := map[string]any{"sub": cs.C.Sub, "clause": clause}
+	if cs.Out.Kind == "noroute" {
+		f["accesslog"] = cs.C.AccessLog
+	}
 	if len(cs.C.Routes) > 0 && cs.Out.Kind == "upstream" {
 		r := &cs.C.Routes[0]
 		switch clause {
@@ -27,6 +30,9 @@ func c07Features(cs *cvxCase, clause string) map[string]any {
 		case "status":
 			f["answer"] = cs.Out.Resp
 			f["headers"] = cs.C.Hdrs
+			f["accesslog"] = cs.C.AccessLog
+		case "incomplete-as-complete":
+			f["answer"] = cs.Out.Resp
 		case "host":
 			f["hostopt"] = r.HostOpt
 		case "query":
@@ -97,6 +103,33 @@ func c07WantHost(w *cvxWorld, cs *cvxCase) string {
 	return cvxNamedHost
 }
 
+// c07Fault: the upstream dies before its answer is complete.  Whatever fabio makes of that, the client must
+// not be handed an answer that looks complete and successful while part of the upstream's body is missing:
+// either the exchange ends in an error on the client's side (no last chunk, fewer bytes than Content-Length,
+// connection closed), or fabio says so with a 5xx of its own.
+func c07Fault(w *cvxWorld, j *cvxJob, fail func(clause, format string, a ...any)) bool {
+	cs := j.cs
+	const whole = 32*1024 + 1
+	w.plans.Store(j.id, &cvxPlan{Fault: cs.Out.Resp, Body: whole})
+	defer w.plans.Delete(j.id)
+	att := cvxAtt{}
+	cs.Att = &att
+	got, err := w.doHTTPOnce(cs, j.id)
+	if err != nil {
+		if strings.HasPrefix(err.Error(), "harness:") {
+			w.errorf("case %d: %v", j.id, err)
+			return false
+		}
+		return true // the client noticed
+	}
+	if got.Status >= 500 && got.Status <= 599 {
+		return true // fabio said so
+	}
+	fail("incomplete-as-complete", "the upstream died before its answer was complete (%s), yet the client received a complete answer: status %d, %d body bytes (the whole body has %d)",
+		cs.Out.Resp, got.Status, got.BodyLen, whole)
+	return true
+}
+
 func c07Exec(w *cvxWorld, j *cvxJob) bool {
 	cs := j.cs
 	fail := func(clause, format string, a ...any) {
@@ -106,6 +139,9 @@ func c07Exec(w *cvxWorld, j *cvxJob) bool {
 	if cs.Out.Kind == "upstream" {
 		w.plans.Store(j.id, &cvxPlan{Interim: interim, Status: status, Hdr: hdr, Body: cs.Att.RespBody, Chunked: cs.Att.RespChunked})
 		defer w.plans.Delete(j.id)
+	}
+	if cs.Out.Cut {
+		return c07Fault(w, j, fail)
 	}
 	if cs.C.Hdrs == "expect" && cs.Att.ReqBody == 0 {
 		// Expect: 100-continue announces a body
